@@ -60,6 +60,31 @@ def WFn.Eqv (a b : WFn) : Prop :=
 _inspect.py:7-29), so the answer is the plain function's -/
 def specOf (env : Nat → Sig) (fn : WFn) : Sig := env fn.base
 
+/-! ### the memo field `function_fullargspec` (_decorators.py:144, 165-169)
+
+Every wrapper object carries a memo that is `None` after construction and is filled on the first
+`fullargspec` request with `getargspec(self.function)` — which asks the wrapped object, recursively
+(_inspect.py:26-29).  `Memos` are the memo fields along a chain, outermost first. -/
+
+abbrev Memos := List (Option Sig)
+
+/-- `getargspec(W)`: the first filled memo on the way down, else the plain function's own specification -/
+def specWalk (base : Sig) : Memos → Sig
+  | [] => base
+  | some s :: _ => s
+  | Option.none :: rest => specWalk base rest
+
+/-- the request `W.fullargspec` also fills the memos it passes through (each level asks the next) -/
+def fillMemos (base : Sig) : Memos → Memos
+  | [] => []
+  | some s :: rest => some s :: rest
+  | Option.none :: rest => some (specWalk base rest) :: fillMemos base rest
+
+/-- what a constructor does to the memos: the new object has an empty memo, the objects below it are kept
+(with their memos, filled or not) except those that are cut out (`keep`) -/
+def mkMemos (keep : List Bool) (ms : Memos) : Memos :=
+  Option.none :: ((ms.zip keep).filter (·.2)).map (·.1)
+
 /-- `kwargs.pop('axis', 0)` -/
 def popAxis (kw : PDict) : PDict := kw.filter fun p => p.1 != "axis"
 
